@@ -12,6 +12,7 @@ def run(ctx):
     ctx.translate(COMPONENTS)
     ctx.prove('props/C02.v')
     L.lockstep(ctx, [L.mon_c02])
+    L.reg_sweep(ctx, L.REG_KINDS['C02'])
     ctx.coverage['rule'] = ('lock-step scenarios with 1-3 actions per signal, concurrent register/unregister/unregister_signal on one or two signals; '
                             'monitor: the tags a delivery ran, in order, must equal the action list of some registry state current between its begin and end '
                             '(reference states computed from the publish events of the real trace)')
@@ -20,6 +21,8 @@ def run(ctx):
 def replay(ctx, path):
     case = json.load(open(path))
     sc = case.get('case', {}).get('scenario')
+    if case.get('case', {}).get('reg_sweep'):
+        return L.reg_replay(ctx, case['case'], L.REG_KINDS['C02'])
     if not sc:
         print(json.dumps(case, indent=1)[:3000])
         return 1
